@@ -3,7 +3,7 @@ from ..rules import kafka, lifecycle, holds, flow
 from .common import declare
 
 RULES = ['AUTOCOMMIT-OFF', 'COMMIT-ONLY-VIA-REF', 'TUPLE-LAYOUT', 'OFFSET-ALGEBRA', 'SEED-FROM-COMMITTED', 'READ-RANGE',
-         'STOP-CHECK', 'SINGLE-FLIGHT', 'PROPAGATE']
+         'STOP-CHECK', 'SINGLE-FLIGHT', 'PROPAGATE', 'NO-REL-ON-FAIL', 'EMIT-BALANCE']
 FLOORS = {'AUTOCOMMIT-OFF': 3, 'COMMIT-ONLY-VIA-REF': 3, 'TUPLE-LAYOUT': 4, 'OFFSET-ALGEBRA': 5, 'SEED-FROM-COMMITTED': 2,
           'READ-RANGE': 5, 'STOP-CHECK': 1, 'PROPAGATE': 1}
 
@@ -26,7 +26,7 @@ META = {
 def run(ctx, R):
     R.explanation = 'Wiring of the batched Kafka source: who may commit, tuple layout agreement, offset normal forms, seeding.'
     R.not_decided = ['crash/restart re-delivery (needs broker semantics)', "get_message_batch's read loop on sparse offsets / timeouts"]
-    declare(R, {**kafka.RULES, **lifecycle.RULES, **flow.RULES}, RULES, FLOORS)
+    declare(R, {**kafka.RULES, **lifecycle.RULES, **flow.RULES, **holds.RULES}, RULES, FLOORS)
     M = ctx.model
     kafka.check_autocommit(ctx, R)
     kafka.check_commit_via_ref(ctx, R)
@@ -34,6 +34,11 @@ def run(ctx, R):
     kafka.check_offset_algebra(ctx, R)
     kafka.check_seed(ctx, R)
     kafka.check_read_range(ctx, R)
+    # the commit fires when the batch's counter reaches zero: that is only 'after processing' if _emit never releases on a
+    # failure edge and retains all its holds before the first delivery
+    holds.check_emit(ctx, R)
+    for k in [k for k in R.obs if k[0] == 'EMIT-REL-TIMING']:
+        del R.obs[k]
     cls = M.cls('streamz.sources', 'FromKafkaBatched')
     lifecycle.check_stop_check(ctx, R, [(cls, cls.methods['poll_kafka'])])
     lifecycle.check_single_flight(ctx, R, [cls])
